@@ -426,7 +426,7 @@ class Flow:
             if d <= 0 or _size(x) > 4 * MAX_EXPR_NODES:
                 return x
             repl: dict[str, ast.expr] = {}
-            for nm in norm.free_names(x):
+            for nm in sorted(norm.free_names(x)):
                 if nm in self.alldefs and nm not in seen:
                     seen.add(nm)
                     defs = [go(copy.deepcopy(dv), d - 1) for dv in self.alldefs[nm]]
